@@ -16,7 +16,7 @@ use std::io::{BufRead, BufReader, Write};
 use std::path::PathBuf;
 use unic_locale::{LanguageIdentifier, Locale};
 
-pub const RULE: &str = "Domain: one deterministic, seeded corpus evaluated by every build of the same harness source (feature sets of {likelysubtags, serde, macros}: quick = none, {l}, {l,s} (main), {s,m}, {l,s,m}; thorough = all 8): section A every 'en-' + locale-alphabet token sequence of 1-3 subtags, every 1-2 subtag sequence of the full boundary alphabet (exhaustive) and the sanitisation-slip strings (padding, case-folding look-alikes such as U+212A); B proptest well-formed locales (all extension shapes, case / separator masks); C near-miss mutations; D language-id strings and near misses - each through Locale::from_bytes, LanguageIdentifier::from_bytes, both canonicalize functions (through the facade crates), Display plain and under width / precision / fill format specs, Debug, hash; E all pairs of a 160 | 400-value pool: ==, cmp, hash equality, matches under the four flag pairs for Locale and LanguageIdentifier; F proptest mutation histories (0-40 public mutator / getter calls, maximize/minimize left out) with the call result and to_string() after every step; G character_direction of every accepted identifier of B and D and of every CLDR layout locale. Oracle: for every line index, sections A-F are byte-identical in all builds; a G line may differ only between a build with and one without likelysubtags, and only for a script-less identifier (the documented refinement). Non-trivial = a line whose input is not a single subtag (histories: at least one mutation step); distinct lines counted through a hash set over the reference build's transcript.";
+pub const RULE: &str = "Domain: one deterministic, seeded corpus evaluated by every build of the same harness source (feature sets of {likelysubtags, serde, macros}: quick = none, {l}, {s}, {m}, {l,s} (main), {l,s,m}; thorough = all 8): section A every 'en-' + locale-alphabet token sequence of 1-3 subtags, every 1-2 subtag sequence of the full boundary alphabet (exhaustive) and the sanitisation-slip strings (padding, case-folding look-alikes such as U+212A); B proptest well-formed locales (all extension shapes, case / separator masks); C near-miss mutations; D language-id strings and near misses - each through Locale::from_bytes, LanguageIdentifier::from_bytes, both canonicalize functions (through the facade crates), FromStr of Locale / LanguageIdentifier / ExtensionsMap / Language / Script / Region / Variant and TryFrom for Language, Display plain and under width / precision / fill format specs, Debug, hash; E all pairs of a 160 | 400-value pool: ==, cmp, hash equality, matches under the four flag pairs for Locale and LanguageIdentifier; F proptest mutation histories (0-40 public mutator / getter calls, maximize/minimize left out) with the call result and to_string() after every step; G character_direction of every accepted identifier of B and D and of every CLDR layout locale. Oracle: for every line index, sections A-F are byte-identical in all builds; a G line may differ only between a build with and one without likelysubtags, and only for a script-less identifier (the documented refinement); builds with the same likelysubtags setting must agree on every G line. Non-trivial = a line whose input is not a single subtag (histories: at least one mutation step); distinct lines counted through a hash set over the reference build's transcript.";
 
 pub fn features() -> String {
     let mut f = vec![];
@@ -57,7 +57,40 @@ fn parse_line(b: &[u8]) -> String {
             Ok(v) => format!("Ok({v} #{:016x} [{v:>24}|{v:.5}|{v:*<8}|{:>6}|{:.1}] dbg={v:?})", h(v), v.language, v.language),
             Err(e) => format!("Err({e:?}/{e})"),
         };
-        format!("L={ls} LI={lis} canonL={c1:?} canonLI={c2:?}")
+        // the other public text -> value routes (FromStr, TryFrom, the subtag and extension
+        // parsers): a feature-gated branch may sit in any one of them
+        let routes = match std::str::from_utf8(b) {
+            Ok(s) => {
+                use unic_locale::subtags::{Language, Region, Script, Variant};
+                let show = |r: Result<String, String>| match r {
+                    Ok(v) => format!("Ok({v})"),
+                    Err(e) => format!("Err({e})"),
+                };
+                format!(
+                    "{}|{}|{}|{}|{}|{}|{}|{}",
+                    show(s.parse::<Locale>().map(|v| v.to_string()).map_err(|e| format!("{e:?}"))),
+                    show(s.parse::<LanguageIdentifier>().map(|v| v.to_string()).map_err(|e| format!("{e:?}"))),
+                    show(s.parse::<unic_locale::extensions::ExtensionsMap>().map(|v| v.to_string()).map_err(|e| format!("{e:?}"))),
+                    show(s.parse::<Language>().map(|v| v.to_string()).map_err(|e| format!("{e:?}"))),
+                    show(<Language as std::convert::TryFrom<Option<&str>>>::try_from(Some(s)).map(|v| v.to_string()).map_err(|e| format!("{e:?}"))),
+                    show(s.parse::<Script>().map(|v| v.to_string()).map_err(|e| format!("{e:?}"))),
+                    show(s.parse::<Region>().map(|v| v.to_string()).map_err(|e| format!("{e:?}"))),
+                    show(s.parse::<Variant>().map(|v| v.to_string()).map_err(|e| format!("{e:?}"))),
+                )
+            }
+            Err(_) => {
+                use unic_locale::subtags::{Language, Region, Script, Variant};
+                format!(
+                    "bytes:{}{}{}{}{}",
+                    unic_locale::extensions::ExtensionsMap::from_bytes(b).is_ok() as u8,
+                    Language::from_bytes(b).is_ok() as u8,
+                    Script::from_bytes(b).is_ok() as u8,
+                    Region::from_bytes(b).is_ok() as u8,
+                    Variant::from_bytes(b).is_ok() as u8
+                )
+            }
+        };
+        format!("L={ls} LI={lis} canonL={c1:?} canonLI={c2:?} routes={routes}")
     });
     match r {
         Ok(s) => s,
@@ -405,6 +438,7 @@ pub fn compare(cfg: &Cfg, only: Option<(char, u64)>) -> Stats {
         }
     }
     let mut tolerated = 0u64;
+    let main_likely = main_features.contains("likelysubtags");
     for line in main_it {
         let Ok(line) = line else { break };
         let mut parts = line.splitn(4, ' ');
@@ -413,6 +447,11 @@ pub fn compare(cfg: &Cfg, only: Option<(char, u64)>) -> Stats {
         let nt = parts.next() == Some("N");
         let body = parts.next().unwrap_or("");
         let wanted = only.map_or(true, |(s, i)| s == sec && i == idx);
+        // direction lines: first line seen in the group of builds with / without likelysubtags
+        let mut group_ref: [Option<(String, String)>; 2] = [None, None];
+        if sec == 'G' {
+            group_ref[main_likely as usize] = Some((main_features.clone(), body.to_string()));
+        }
         for (k, (name, it, _)) in its.iter_mut().enumerate() {
             let other = match it.next() {
                 Some(Ok(l)) => l,
@@ -425,6 +464,19 @@ pub fn compare(cfg: &Cfg, only: Option<(char, u64)>) -> Stats {
                 continue;
             }
             st.eval();
+            if sec == 'G' {
+                // builds that agree on likelysubtags must agree on every direction, whatever
+                // else is switched on (a facade feature that drags likelysubtags in is seen here)
+                let obody = other.splitn(4, ' ').nth(3).unwrap_or("").to_string();
+                let g = feats[k].contains("likelysubtags") as usize;
+                match &group_ref[g] {
+                    None => group_ref[g] = Some((feats[k].clone(), obody)),
+                    Some((rf, rb)) if *rb != obody => {
+                        st.fail("character_direction-differs-between-builds-with-the-same-likelysubtags-setting", item_case(sec, idx, &line, cfg, rf, &feats[k]), 10, format!("features [{rf}]: {rb} | features [{}]: {obody}", feats[k]));
+                    }
+                    _ => {}
+                }
+            }
             if other == line {
                 continue;
             }
